@@ -23,7 +23,14 @@ impl OptCase {
 	/// Prints through the API a user would call for this case.
 	pub fn print(&self, v: &Value) -> String {
 		match self {
-			OptCase::Preset("compact") => v.compact_print().to_string(),
+			OptCase::Preset("compact") => {
+				// alternate between the three ways of asking for the compact form
+				match crate::framework::hash64(&v.to_string().len()) % 3 {
+					0 => v.compact_print().to_string(),
+					1 => v.to_string(),
+					_ => String::from(v.clone()),
+				}
+			}
 			OptCase::Preset("inline") => v.inline_print().to_string(),
 			OptCase::Preset("pretty") => v.pretty_print().to_string(),
 			OptCase::Preset(_) => unreachable!(),
@@ -63,7 +70,7 @@ pub fn print_value_cfg() -> gen::ValueCfg {
 pub fn build(v: &RefValue, route: bool) -> Value {
 	if route {
 		// one of five alternative construction routes, chosen by the value itself (deterministic)
-		let r = crate::framework::hash64(&crate::refprint::compact(v)) % 5;
+		let r = crate::framework::hash64(&crate::refprint::compact(v)) % 6;
 		v.to_value_route(1 + r as u8)
 	} else {
 		v.to_value()
